@@ -273,9 +273,16 @@ func TestC11_Sessions(t *testing.T) {
 		w.cd = genCodec(t, 2, "c")
 		w.otherCookies = rapid.IntRange(0, 2).Draw(t, "otherCookies")
 		appCookie := rapid.Bool().Draw(t, "backendSetsCookies")
+		mutatingBackend := rapid.IntRange(0, 2).Draw(t, "handlerRewritesURL") == 0
 		var handler http.Handler = http.HandlerFunc(func(rw http.ResponseWriter, r *http.Request) {
 			w.served++
-			w.seen = r.URL
+			seenCopy := *r.URL
+			w.seen = &seenCopy
+			if mutatingBackend { // a downstream handler that rewrites the request it was handed (path prefix, credentials)
+				r.URL.Path = "/internal" + r.URL.Path
+				r.URL.User = nil
+				r.URL.RawQuery = ""
+			}
 			if appCookie { // the application behind the balancer has cookies of its own
 				rw.Header().Add("Set-Cookie", "appsession=s-1; Path=/")
 				rw.Header().Add("Set-Cookie", "sidx=1")
